@@ -80,8 +80,8 @@ def width_text(e, env, mult=1):
         return '*'
     if is_cfg_expr(e, env):
         t = u(e)
-        for k, v in env.items():
-            pass
+        if isinstance(e, ast.Name) and ('~txt~' + e.id) in env:
+            t = env['~txt~' + e.id]      # a local alias of a configuration expression
         if mult != 1:
             return '%d*(%s)' % (mult, t)
         return t
@@ -412,6 +412,9 @@ class Enum:
                     for nm in ast.walk(tg):
                         if isinstance(nm, ast.Name):
                             e2[nm.id] = self.classify(value, env, k, t)
+                            e2.pop('~txt~' + nm.id, None)
+                            if e2[nm.id] == 'cfg' and isinstance(tg, ast.Name):
+                                e2['~txt~' + nm.id] = width_text(value, env)
                 out.append((toks + t, e2, False))
             return out
         if isinstance(s, ast.AugAssign):
